@@ -30,6 +30,8 @@ RULE_DOC = {
     'R4': 'String-typed message argument of an error constructor -> opaque msg(); the error variant is kept',
     'R5': '`if C { continue; } REST` directly in a for body -> `if !(C) { REST }` (definition of continue)',
     'R6': '`if let P = E && C { B }` without else -> `if let P = E { if C { B } }` (definition of a let chain)',
+    'R8': '`let v = M.values().filter(|p| C).map(|q| E).min();` -> `let mut v = None; for (_, p) in M.iter() { if C { v = opt_min(v, E) } }` (std: minimum of the filtered, mapped values; opt_min is a verified helper)',
+    'R9': '`let v: Vec<T> = M.iter().filter(|(a, b)| BODY).map(|(i, _)| *i).collect();` -> `let mut v = Vec::new(); for (a, b) in M.iter() { if BODY { v.push(*a) } }` (std semantics of filter/map/collect; the closure body is copied verbatim)',
     'R7': '`x op= e` / method sugar spelled out where Verus lacks the operator form (recorded per site)',
     'E1': 'foreign field/param types replaced by a declared stand-in with an assumed contract (FxHashMap/FxHashSet -> std HashMap/HashSet, opaque ArcStr/Term ...)',
     'E2': 'Atomic{U64,Usize}::{load,store,fetch_add,fetch_sub} on a field -> plain read / write / read-modify-write (single-threaded semantics)',
@@ -186,6 +188,65 @@ class Piece:
         """`for (i, x) in E.iter().enumerate() {` (x bound by reference) -> `for i in 0..E.len() { let x = &E[i];`"""
         return self.resub('R3', r'for \((\w+), (\w+)\) in ([\w\.]+)\.iter\(\)\.enumerate\(\) \{',
                           r'for \1 in 0..\3.len() { let \2 = &\3[\1];')
+
+    # ---- iterator adapter chains over a std map: rewritten to the loop std defines them as (exact shapes only) ----
+    def _chain(self, text, code, start):
+        """parse `.name(args)` calls from index start; returns list of (name, args_text, end_index)"""
+        calls = []
+        i = start
+        while True:
+            m = re.match(r'\s*\.(\w+)\(', text[i:])
+            if not m:
+                break
+            op = i + m.end() - 1
+            cl = match_close(text, code, op)
+            calls.append((m.group(1), text[op + 1:cl], cl + 1))
+            i = cl + 1
+        return calls, i
+
+    def R8(self, var, ty=None):
+        """`let V = M.values().filter(|p| C).map(|q| E).min();` -> loop keeping the minimum (std: min of the filtered, mapped values)"""
+        text = self.text
+        code = scan(text)
+        m = re.search(r'let %s = ([\w\.]+?)(?=\s*\.values\(\))' % re.escape(var), text)
+        if not m:
+            raise LostAnchor('rule R8 in %s: `let %s = <map>.values()...` not found' % (self.label, var))
+        calls, end = self._chain(text, code, m.end())
+        names = [c[0] for c in calls]
+        if names != ['values', 'filter', 'map', 'min'] or text[end:end + 1] != ';':
+            raise LostAnchor('rule R8 in %s: chain is %s, expected values/filter/map/min' % (self.label, names))
+        fm = re.match(r'\s*\|(\w+)\|\s*(.*)$', calls[1][1], re.S)
+        mm = re.match(r'\s*\|(\w+)\|\s*(.*)$', calls[2][1], re.S)
+        if not fm or not mm:
+            raise LostAnchor('rule R8 in %s: closure shape' % self.label)
+        ind = re.match(r'[ \t]*', text[_line_start(text, m.start()):]).group(0)
+        new = ('let mut %s%s = None;\n%sfor (k__r, %s) in %s.iter() {\n%s    if (%s) { let %s = %s; %s = opt_min(%s, %s); }\n%s}'
+               % (var, (': ' + ty) if ty else '', ind, fm.group(1), m.group(1), ind, fm.group(2).strip(), mm.group(1), fm.group(1), var, var, mm.group(2).strip(), ind))
+        self.text = text[:m.start()] + new + text[end + 1:]
+        self._fired('R8', 'min of filtered/mapped map values -> loop + opt_min')
+        return self
+
+    def R9(self, var):
+        """`let V: Vec<T> = M.iter().filter(|(a, b)| BODY).map(|(i, _)| *i).collect();` -> loop pushing the keys whose entry passes BODY"""
+        text = self.text
+        code = scan(text)
+        m = re.search(r'let %s: (Vec<[\w:]+>) = ([\w\.]+?)(?=\s*\.iter\(\))' % re.escape(var), text)
+        if not m:
+            raise LostAnchor('rule R9 in %s: `let %s: Vec<_> = <map>.iter()...` not found' % (self.label, var))
+        calls, end = self._chain(text, code, m.end())
+        names = [c[0] for c in calls]
+        if names != ['iter', 'filter', 'map', 'collect'] or text[end:end + 1] != ';':
+            raise LostAnchor('rule R9 in %s: chain is %s, expected iter/filter/map/collect' % (self.label, names))
+        fm = re.match(r'\s*\|\((\w+), (\w+)\)\|\s*(.*)$', calls[1][1], re.S)
+        mm = re.match(r'\s*\|\((\w+), _\)\|\s*\*(\w+)\s*$', calls[2][1], re.S)
+        if not fm or not mm or mm.group(1) != mm.group(2):
+            raise LostAnchor('rule R9 in %s: closure shape' % self.label)
+        ind = re.match(r'[ \t]*', text[_line_start(text, m.start()):]).group(0)
+        new = ('let mut %s: %s = Vec::new();\n%sfor (a__r, b__r) in %s.iter() {\n%s    let %s = &a__r; let %s = &b__r;\n%s    let keep__ = %s;\n%s    if keep__ { %s.push(*a__r); }\n%s}'
+               % (var, m.group(1), ind, m.group(2), ind, fm.group(1), fm.group(2), ind, fm.group(3).strip(), ind, var, ind))
+        self.text = text[:m.start()] + new + text[end + 1:]
+        self._fired('R9', 'filter/map/collect over map entries -> loop + push')
+        return self
 
     def R4(self):
         t = self.text
